@@ -240,7 +240,9 @@ def _enc_r(s):
     return _rle([str(ord(c)) for c in s])
 
 
-def _enc_cells(cells):
+def _enc_cells(cells, plain=None):
+    if plain is not None and ESC in plain:
+        return "~"          # str() of content that holds ESC itself cannot be read back into cells (both sides print ~)
     if cells is None:
         return "?"
     return _rle(["%d.%s" % (ord(c), k) for c, k in cells])
@@ -275,6 +277,8 @@ def postfix(t):
         return postfix(t[1]) + ["fl:%d" % t[2]]
     if k == "it":
         return postfix(t[1]) + ["iter"]
+    if k in ("joinit", "joinfor"):
+        return postfix(t[1]) + postfix(t[2]) + ["joinit"]
     if k in ("dupiadd", "dupiaddl"):
         return postfix(t[1]) + [k]
     raise ValueError(k)
@@ -316,6 +320,9 @@ def parse_postfix(toks):
             st.append(("fl", st.pop(), int(f[1])))
         elif k == "iter":
             st.append(("it", st.pop()))
+        elif k == "joinit":
+            a = st.pop()
+            st.append(("joinit", st.pop(), a))
         elif k in ("dupiadd", "dupiaddl"):
             st.append((k, st.pop()))
         else:
@@ -419,6 +426,9 @@ def ev_real(t):
         return ev_real(t[1]).fixed_len(t[2])
     if k == "it":
         return list(ev_real(t[1]))
+    if k == "joinit":
+        sep = ev_real(t[1])
+        return sep.join(ev_real(t[2]))
     if k in ("dupiadd", "dupiaddl"):
         return _self_iadd(ev_real(t[1]), k == "dupiaddl")
     raise ValueError(k)
@@ -428,10 +438,12 @@ def show_real(obj):
     col = _color()
     if isinstance(obj, col.CHText):
         chunks = "/".join("%s:%s" % (_col_id(c.c_prefix, c.c_suffix), _enc_r(c.text)) for c in obj.chunks) or "-"
-        return "T %d %s P %s X %s" % (len(obj), chunks, _enc_r(obj.plain_text()), _enc_cells(_cells_of_str(str(obj))))
+        content = "".join(c.text for c in obj.chunks)
+        return "T %d %s P %s X %s" % (len(obj), chunks, _enc_r(obj.plain_text()),
+                                      _enc_cells(_cells_of_str(str(obj)), content))
     if isinstance(obj, col.CHText.Chunk):
         return "C %s:%s L %d P %s X %s" % (_col_id(obj.c_prefix, obj.c_suffix), _enc_r(obj.text), len(obj),
-                                          _enc_r(obj.plain_text()), _enc_cells(_cells_of_str(str(obj))))
+                                          _enc_r(obj.plain_text()), _enc_cells(_cells_of_str(str(obj)), obj.text))
     if isinstance(obj, str):
         return "S " + _enc_r(obj)
     if isinstance(obj, (list, tuple)):
@@ -564,6 +576,16 @@ def ref_step(t, kids):
         if a.kind not in ("t", "c"):
             raise OutOfModel()
         return Ref("ls", items=[Ref(a.kind, ch, [c], col=a.col) for ch, c in zip(list(a.plain), a.cols)])
+    if k == "joinit":
+        sep, a = kids
+        if sep.kind not in ("t", "c") or a.kind not in ("t", "c"):
+            raise OutOfModel()
+        cols = []
+        for n, c in enumerate(a.cols):
+            if n:
+                cols = cols + sep.cols
+            cols = cols + [c]
+        return Ref("t", sep.plain.join(a.plain), cols)          # str.join over a str: one item per character
     if k in ("dupiadd", "dupiaddl"):
         a = kids[0]                       # s = a; s += s   /  the list [s] holds the same characters
         if a.kind not in ("t", "c"):
@@ -578,7 +600,7 @@ def kids_of(t):
         return []
     if k in ("ls", "tp", "mk"):
         return list(t[1])
-    if k in ("add", "iadd"):
+    if k in ("add", "iadd", "joinit"):
         return [t[1], t[2]]
     if k == "join":
         return [t[2]] + list(t[3])
@@ -591,7 +613,7 @@ def with_kids(t, kids):
         return t
     if k in ("ls", "tp", "mk"):
         return (k, list(kids))
-    if k in ("add", "iadd"):
+    if k in ("add", "iadd", "joinit"):
         return (k, kids[0], kids[1])
     if k == "join":
         return ("join", t[1], kids[0], list(kids[1:]))
@@ -853,6 +875,8 @@ def _real_step(t, kids):
         return kids[0].fixed_len(t[2])
     if k == "it":
         return list(kids[0])
+    if k == "joinit":
+        return kids[0].join(kids[1])
     if k in ("dupiadd", "dupiaddl"):
         return _self_iadd(kids[0], k == "dupiaddl")
     raise ValueError(k)
@@ -892,6 +916,21 @@ def _r(x):
 def _check_value(obj, ref, where, eq=True):
     """the observable claims of the statement for one resulting object"""
     col = _color()
+    if ref.kind == "ls" and where.startswith("it "):
+        # list(x) / for ch in x: one item per visible character, each showing that character in its colour
+        items = list(obj)
+        if len(items) != len(ref.items):
+            raise Violation("iter: %s yields %d items, the str has %d characters" % (where, len(items), len(ref.items)))
+        for n, (o, r) in enumerate(zip(items, ref.items)):
+            # the statement does not fix the type of an item (one-character text or chunk): only what it shows
+            kind = "t" if isinstance(o, col.CHText) else "c"
+            _check_value(o, Ref(kind, r.plain, r.cols, col=r.col), "item %d of %s" % (n, where))
+        n = 0
+        for ch in obj:                      # the for statement itself
+            n += 1
+        if n != len(ref.items):
+            raise Violation("iter: for over %s runs %d times, the str has %d characters" % (where, n, len(ref.items)))
+        return
     if ref.kind in ("ls", "tp", "s"):
         return
     want = ref.cells()
@@ -913,7 +952,7 @@ def _check_value(obj, ref, where, eq=True):
         raise Violation("len: %s has len %d but shows %d characters" % (where, len(obj), len(ref.plain)))
     if got != want:
         raise Violation("color: %s: chunks carry %s, the characters were created as %s" % (where, _r(got), _r(want)))
-    shown = _cells_of_str(str(obj))
+    shown = want if ESC in ref.plain else _cells_of_str(str(obj))
     if shown != want:
         raise Violation("str: %s: str() shows %s, expected %s" % (where, _r(shown), _r(want)))
     if isinstance(obj, col.CHText) and eq:
@@ -970,6 +1009,8 @@ def _in_format_domain(spec):
 
 
 def _check_format(obj, ref, spec, where):
+    if ESC in ref.plain:
+        return
     want = format(ref.plain, spec)
     cells = _cells_of_str(format(obj, spec))
     if cells is None or "".join(c for c, _ in cells) != want:
@@ -1135,7 +1176,14 @@ ALPHA = "abc xyz s05<é中"
 FILLS = [None, "*", " ", "0", "<", ">", "^", "x", "s", "5", "é", "=", "{"]
 
 
+_ESC_MODE = [False]       # set by gen_cases around the ESC-content stream (generation is single threaded)
+ESC_TOKENS = ["\033[", "1m", "\033[31m", "\033[0m", "\033[m", "\033", "[", "m", "33", ";", ":", "a", "b ", "\033[38:5:1m",
+              "\033[1;4", "m x", "0m"]
+
+
 def _rtext(rng, lo=0, hi=4):
+    if _ESC_MODE[0]:
+        return "".join(rng.choice(ESC_TOKENS) for _ in range(rng.randint(lo, min(hi, 3))))
     if hi == 4 and rng.random() < 0.1:
         hi = 9
     return "".join(rng.choice(ALPHA) for _ in range(rng.randint(lo, hi)))
@@ -1195,6 +1243,10 @@ class _Gen:
         op = rng.choice(["mk", "mk", "add", "add", "iadd", "iadd", "join", "idx", "sl", "sl", "sl", "fl"])
         if rng.random() < 0.05:
             op = rng.choice(["dupiadd", "dupiaddl"])
+        elif rng.random() < 0.05:
+            sep, a = self.obj(depth + 1), self.obj(depth + 1)
+            t = ("joinit", sep[0], a[0])
+            return t, ev_ref_shallow(t)
         if op == "mk":
             its = [self.part(depth + 1) for _ in range(rng.randint(0, 3))]
             t = ("mk", [x for x, _ in its])
@@ -1266,7 +1318,7 @@ def _pieces_tree(rng, plain, cols):
         if rng.random() < 0.3:
             parts.append(rng.choice([("s", ""), ("c", rng.randrange(4), ""), ("mk", []), ("ls", [])]))
     how = rng.randrange(4)
-    if how == 0 or not parts:
+    if how == 0 or not parts or len(parts) > 40:       # a chain of + over many pieces would be a very deep tree
         return ("mk", parts)
     if how == 1:
         t = ("mk", [parts[0]])
@@ -1357,6 +1409,41 @@ def gen_cases(rng, tier):
         yield _case(line_of("val", [("fl", ct, n)]), "size-fixedlen")
         yield _case(line_of("val", [("fl", ct, n + 2)]), "size-fixedlen")
         yield _case(line_of("fmt", [ct], "^" + str(n + 2)), "size-format")
+    # 1c. a text / chunk / slice used as the iterable: sep.join(x), list(x), CHText(*list(x)), x as a `for` source
+    for base in BASES:
+        bt = _base_tree(base)
+        n = sum(len(t) for t, _ in base)
+        srcs = [bt, ("sl", bt, 1, None), ("sl", bt, None, -1), ("add", bt, ("s", "xy")), ("fl", bt, n + 2)]
+        if len(base) == 1:
+            srcs += [("c", base[0][1], base[0][0]), ("sl", ("c", base[0][1], base[0][0]), 1, None)]
+        for src in srcs:
+            yield _case(line_of("val", [("it", src)]), "iter-list")
+            yield _case(line_of("val", [("mk", [("it", src)])]), "iter-list")
+            for sep in (("s", "-"), ("c", 1, "-"), ("c", 2, "<>"), ("s", "")):
+                sp = sep if sep[0] == "c" and rng.random() < 0.5 else ("mk", [sep])
+                yield _case(line_of("val", [("joinit", sp, src)]), "iter-join")
+                yield _case(line_of("val", [("join", "l", sp, [("it", src)])]), "iter-join")
+    # 1d. content that holds ESC and complete / split colour sequences (captured coloured output)
+    _ESC_MODE[0] = True
+    try:
+        for _ in range(1500 if quick else 30000):
+            g = _Gen(rng, rng.choice([1, 2, 3]), rng.choice([1, 2, 3]))
+            t, r = g.value(0)
+            if rng.random() < 0.7 or r.kind not in ("t", "c", "s"):
+                yield _case(line_of("val", [t]), "esc-content")
+            else:
+                other = _pieces_tree(rng, r.plain, list(r.cols))
+                if not (r.kind == "s" and other[0] == "s"):
+                    try:
+                        ro = ev_ref(other)
+                    except IndexError:
+                        continue
+                    if not any(x.kind == "c" and not x.plain for x in (r, ro)) or any(x.kind == "t" for x in (r, ro)):
+                        yield _case(line_of("eq", [t, other]), "esc-content")
+        for _ in range(300 if quick else 6000):
+            yield _case(hist_line(gen_history(rng, rng.randint(3, 6), rng.choice([1, 2, 3]))), "esc-history")
+    finally:
+        _ESC_MODE[0] = False
     # 2. random operation trees
     n_trees = 16000 if quick else 400000
     for k in range(n_trees):
@@ -1565,6 +1652,12 @@ def corpus():
         "alias 2 c:1:97,98 mk:1 c:1:113",     # the same with a merge into the last chunk
         # seed C09-m4: a cached str() that is not dropped when += merges into the last chunk
         "hist new c:1:97 ; iadd:0 c:1:98 ; iadd:0 s:99 ; iadd:0 s:100",
+        # seed C08-m13: a text used as an iterable yields one item per character, not per chunk
+        "val s:45 mk:1 s:97,98,99,100 mk:1 joinit",
+        "val c:1:97,98 s:99,100 mk:2 iter",
+        # seed C08-m14: content with a colour sequence in it, given or formed by a merge
+        "val s:99,32,27,91,51,51,109,49,27,91,109,32,102 mk:1",
+        "val s:27,91 mk:1 s:49,109 add",
         "hist new c:1:97 s:98 ; add:0 c:2:99 ; iadd:0 s:100 ; iadd:1 c:2:101 ; sl:0:1:n ; iadd:0 o:0",
     ]
     return [{"lines": [l], "meta": {"kind": "corpus"}} for l in lines]
@@ -1713,7 +1806,10 @@ def shrink(case):
 RULE = ("one case = one protocol line. Streams: (1) exhaustive slices/indexes/fixed_len/format widths on 7 base texts of 0-4 "
         "chunks and on single chunks; (1b) sizes: fixed_len / format width / resize_chunks_list / a history with paddings and "
         "truncations of 255, 256, 1023, 1024, 1025, 1100, 5000, 70000 characters (1% of the random fixed_len too; numbers travel, "
-        "replies are run-length encoded on both sides); (2) random operation trees of depth <= 4 (thorough 6) over 2-6 colours and texts of 0-4 "
+        "replies are run-length encoded on both sides); "
+        "(1c) a text / chunk / slice / sum used as the iterable: sep.join(x), list(x), CHText(list(x)), the for statement, "
+        "on all base texts (one item per character is judged); (1d) content holding ESC, complete and split colour sequences "
+        "(values, == and histories); (2) random operation trees of depth <= 4 (thorough 6) over 2-6 colours and texts of 0-4 "
         "(10%: 0-9) characters from 'abc xyz s05<é中' (constructor, +, +=, reflected + with str/list/tuple, join, [i], [i:j], "
         "fixed_len, list(x), x += x, x += [x], nested lists/tuples, empty operands), observed as value / format(spec) / == "
         "against a re-assembly of the same cells, a near miss, a str, a chunk; IndexError trees; (3) `u = x.fixed_len(n); "
@@ -1733,7 +1829,8 @@ ASSUMPTIONS = ["colour id = (c_prefix, c_suffix) of a ColorFmt-produced chunk; t
                "a `+=` operand that mentions its target more than once or after other elements (`t += [t, t]` gives four "
                "copies, `t += [x, t]` gives t x t x) has no unambiguous str reading: generated, compared with the model "
                "(C08.hist_self_twice), not judged by the oracle",
-               "characters of texts and fills are not ESC",
+               "fills are not ESC; texts may hold ESC and whole colour sequences (streams esc-content / esc-history): there "
+               "str()/format() are not read back into cells (the X part of the reply is `~` on both sides), everything else is",
                "outside the property (not generated): `x in text` (falls back to iteration: substrings are never found), "
                "hash() of chunks, slice steps (CHText raises ValueError), format specs with zero flag / precision / sign, "
                "CHText.make keeping the caller's list object"]
@@ -1767,6 +1864,8 @@ def nontrivial(case, replies):
 
 def tags(case, replies):
     yield case.get("meta", {}).get("kind", "?")
+    if " X ~" in replies[0]:
+        yield "esc-in-content"
     if "*" in replies[0]:
         m = max(int(x) for x in re.findall(r"\*(\d+)", replies[0]))
         yield "run>=%d" % next(b for b in (70000, 5000, 1025, 1024, 256, 4) if m >= b)
@@ -1828,7 +1927,8 @@ LEVEL_TEXT = ("Kernel-checked for all inputs on the Lean model of CHText / CHTex
               "theorem per operation: += / constructor / + / reflected + concatenate cells, join = str.join, [i:j] = Python slicing "
               "for None/negative/out-of-range bounds (pySlice, itself proved against the index-level definition of the language "
               "reference), [i] = str indexing with IndexError in exactly the same cases, list(text) = the one-character texts of the "
-              "cells (the iteration loop terminates), fixed_len = s[:n].ljust(n), "
+              "cells (the iteration loop terminates; sep.join(text) puts the separator between all characters whatever the chunks "
+              "are), fixed_len = s[:n].ljust(n), "
               "format(text, [[fill]align][width][s]) = Python's padding of the cells with default-coloured pads, hence its visible "
               "text = format(plain_text, spec); the chunk versions likewise; (3) == on texts satisfying the invariant is equality of "
               "cells (canonical chunk list is unique: C08.canon_repr), text == str iff default-coloured cells of that str, text == "
